@@ -3,7 +3,7 @@
 
    The curve hands the Bezier routine one segment at a time: the control points
    from one typed point to the next, both included (DecodeTerminatesSegLoop).
-   [max_seg_len cps] is the largest such slice a control-point list admits: the
+   [max_seg_len cps] is the largest such slice a control-point list allows: the
    longest run of untyped points strictly inside the list plus its two end
    points (never more than the whole list).  A slider whose control points are
    inside +-2^E of its head with max_seg_len * 2^E <= 2^22 ([cps_seg_fit E]; 16
